@@ -708,6 +708,79 @@ func runSessionLife(c *Ctx) {
 				}
 				return "", false, false
 			}})
+			// "another connection with the sender role is still in the session": a bool that is only ever set to true inside a
+			// range over hub.List(...) under `<elem>.Role == "sender"`. The session then still has its host (a reconnect
+			// replaced this socket, or this socket only claimed the role): `role == "sender" && !remains` false is settled.
+			remains := map[types.Object]bool{}
+			ast.Inspect(li.Body, func(n ast.Node) bool {
+				rs, ok := n.(*ast.RangeStmt)
+				if !ok {
+					return true
+				}
+				call, ok := ast.Unparen(rs.X).(*ast.CallExpr)
+				if !ok {
+					return true
+				}
+				if fi := p.CalleeInfo(linfo, call); fi == nil || fi.Name != "peers.(*Hub).List" {
+					return true
+				}
+				ast.Inspect(rs.Body, func(m ast.Node) bool {
+					is, ok := m.(*ast.IfStmt)
+					if !ok {
+						return true
+					}
+					be, ok := ast.Unparen(is.Cond).(*ast.BinaryExpr)
+					if !ok || be.Op != token.EQL {
+						return true
+					}
+					sel, ok := ast.Unparen(be.X).(*ast.SelectorExpr)
+					if sv, isC := constString(linfo, be.Y); !ok || !isC || sv != "sender" || sel.Sel.Name != "Role" || ObjOf(linfo, sel.X) != ObjOf(linfo, rs.Value) {
+						return true
+					}
+					for _, st := range is.Body.List {
+						if as, ok := st.(*ast.AssignStmt); ok && len(as.Lhs) == 1 && types.ExprString(as.Rhs[0]) == "true" {
+							remains[ObjOf(linfo, as.Lhs[0])] = true
+						}
+					}
+					return true
+				})
+				return true
+			})
+			// any other assignment of true to such a variable disqualifies it
+			ast.Inspect(li.Body, func(n ast.Node) bool {
+				if as, ok := n.(*ast.AssignStmt); ok && as.Tok == token.ASSIGN {
+					for i, l := range as.Lhs {
+						if o := ObjOf(linfo, l); o != nil && remains[o] && i < len(as.Rhs) && types.ExprString(as.Rhs[i]) != "true" && types.ExprString(as.Rhs[i]) != "false" {
+							delete(remains, o)
+						}
+					}
+				}
+				return true
+			})
+			exitSpec.Vias = append(exitSpec.Vias, Via{Cond: func(f *FuncInfo, e ast.Expr) (string, bool, bool) {
+				be, ok := ast.Unparen(e).(*ast.BinaryExpr)
+				if !ok || be.Op != token.LAND {
+					return "", false, false
+				}
+				hasRole, hasRemains, other := false, false, false
+				for _, a := range Implied(be, true) {
+					if b2, ok := a.E.(*ast.BinaryExpr); ok && a.Val && b2.Op == token.EQL {
+						if sv, isC := constString(f.Info(), b2.Y); isC && sv == "sender" {
+							hasRole = true
+							continue
+						}
+					}
+					if o := ObjOf(f.Info(), a.E); o != nil && remains[o] && !a.Val {
+						hasRemains = true
+						continue
+					}
+					other = true
+				}
+				if hasRole && hasRemains && !other {
+					return "settled", false, true
+				}
+				return "", false, false
+			}})
 			facts := exitSpec.Facts(li)
 			ne := 0
 			for _, b := range lcfg.Blocks {
